@@ -44,8 +44,40 @@ async fn run_framing(case: &Value) -> Value {
     let server_caps: Vec<&str> = case["server_versions"].as_array().map(|a| a.iter().filter_map(|v| v.as_str()).collect()).unwrap_or_default();
     let mut caps: Vec<String> = server_caps.iter().map(|v| format!("urn:ietf:params:netconf:base:{v}")).collect();
     caps.push("urn:ietf:params:netconf:capability:candidate:1.0".into());
+    // a hello of an exact total length (module capabilities make hellos of tens of kilobytes):
+    // sent in one write, the transport cuts it where its own packet size ends
+    if let Some(target) = case["hello_len"].as_u64() {
+        let target = target as usize;
+        let base_len = {
+            let mut c = caps.clone();
+            c.push("urn:vh:pad:".into());
+            let refs: Vec<&str> = c.iter().map(String::as_str).collect();
+            hello_bytes(&refs).len()
+        };
+        let mut rest = target.saturating_sub(base_len);
+        // several capabilities of at most 200 characters, the last one takes what is left
+        let per_cap_overhead = {
+            let mut c = caps.clone();
+            c.push("urn:vh:pad:".into());
+            c.push("urn:vh:pad:".into());
+            let refs: Vec<&str> = c.iter().map(String::as_str).collect();
+            hello_bytes(&refs).len() - base_len
+        };
+        let mut pads: Vec<String> = Vec::new();
+        while rest > 200 + per_cap_overhead {
+            pads.push(format!("urn:vh:pad:{}", "x".repeat(200)));
+            rest -= 200 + per_cap_overhead;
+        }
+        pads.push(format!("urn:vh:pad:{}", "y".repeat(rest)));
+        caps.extend(pads);
+    }
     let cap_refs: Vec<&str> = caps.iter().map(String::as_str).collect();
     let hello = hello_bytes(&cap_refs);
+    if let Some(target) = case["hello_len"].as_u64() {
+        if hello.len() != target as usize {
+            return json!({"verdict": "harness-error", "why": format!("hello of {} bytes instead of {target}", hello.len())});
+        }
+    }
     let mut lis = match Listener::bind(tr).await {
         Ok(l) => l,
         Err(e) => return json!({"verdict": "harness-error", "why": format!("bind: {e}")}),
